@@ -830,3 +830,44 @@ impl<'g, G: AffineRepr, T: BorrowMut<Transcript>> Prover<'g, G, T> {
         Ok((proof, self.transcript))
     }
 }
+
+#[cfg(feature = "verif-hooks")]
+impl<'g, G: AffineRepr, T: BorrowMut<Transcript>> Prover<'g, G, T> {
+    /// Verification hook: overwrite the assignment of multiplication gate `i`
+    /// so that a gate-violating witness can be pushed through the unmodified proving code.
+    pub fn verif_overwrite_gate(
+        &mut self,
+        i: usize,
+        l: G::ScalarField,
+        r: G::ScalarField,
+        o: G::ScalarField,
+    ) {
+        self.secrets.a_L[i] = l;
+        self.secrets.a_R[i] = r;
+        self.secrets.a_O[i] = o;
+    }
+
+    /// Verification hook: read back the assignment of multiplication gate `i`.
+    pub fn verif_gate(&self, i: usize) -> (G::ScalarField, G::ScalarField, G::ScalarField) {
+        (self.secrets.a_L[i], self.secrets.a_R[i], self.secrets.a_O[i])
+    }
+}
+
+#[cfg(feature = "verif-hooks")]
+impl<'g, G: AffineRepr, T: BorrowMut<Transcript>> RandomizingProver<'g, G, T> {
+    /// Verification hook: see [`Prover::verif_overwrite_gate`].
+    pub fn verif_overwrite_gate(
+        &mut self,
+        i: usize,
+        l: G::ScalarField,
+        r: G::ScalarField,
+        o: G::ScalarField,
+    ) {
+        self.prover.verif_overwrite_gate(i, l, r, o)
+    }
+
+    /// Verification hook: see [`Prover::verif_gate`].
+    pub fn verif_gate(&self, i: usize) -> (G::ScalarField, G::ScalarField, G::ScalarField) {
+        self.prover.verif_gate(i)
+    }
+}
